@@ -11,7 +11,11 @@ package main
 //
 // Case line (see lean/StorageModel/Tx/Wire.lean for the grammar):
 //
-//	E nP reg* nC reg* txl T ntx tx*
+//	E nP reg* nC reg* txl [I nIxP ixreg* nIxC ixreg*] T ntx tx*
+//
+// ixreg = nveto (stage id)*: a custom boltz.Constraint registered with AddConstraint on the parent / child
+// store (after the built-in indexes) which calls ctx.ErrHolder.SetError in ProcessBeforeUpdate (b),
+// ProcessAfterUpdate (a) or ProcessBeforeDelete (d) for the listed row ids.
 //
 // Steps: op (store operation, error handed on or swallowed), fail (the caller returns an error), ac / ap
 // (AddCommitAction / AddPreCommitAction), nb / nB ... ne (nested Db.Update / Db.Batch with the bound
@@ -21,7 +25,9 @@ package main
 //
 //	r=<ok|err:kind|panic> same=<0|1> runs=<n> pre=[..] pa=[..] sync=[..] async=[..] ca=[..] dump=<-|[leaves]>
 //
-// pre  ProcessPreCommit calls seen by the registered constraints (inside the transaction, in order)
+// pre  ProcessPreCommit calls seen by the registered entity constraints and ProcessBeforeUpdate /
+//      ProcessAfterUpdate / ProcessBeforeDelete calls seen by the custom index-stage constraints (I.<store>.<n>.
+//      <stage>.<id>.<isCreate>), inside the transaction, in call order
 // pa   pre-commit actions that ran
 // sync callbacks that ran on the committing goroutine, in order (L listener, Q constraint post-commit, X tx-complete)
 // async callbacks that ran on another goroutine (sorted); the executor waits until every goroutine
@@ -45,6 +51,7 @@ import (
 	"sync"
 	"time"
 
+	"github.com/openziti/foundation/v2/errorz"
 	"github.com/openziti/storage/ast"
 	"github.com/openziti/storage/boltz"
 	"go.etcd.io/bbolt"
@@ -63,6 +70,11 @@ type txReg struct {
 type txVeto struct {
 	kind byte
 	id   string
+}
+
+type txIxVeto struct {
+	stage byte // b a d
+	id    string
 }
 
 type txFields struct {
@@ -95,6 +107,7 @@ type txTx struct {
 type txCase struct {
 	regsP, regsC []txReg
 	txl          int
+	ixP, ixC     [][]txIxVeto
 	txs          []txTx
 }
 
@@ -259,7 +272,28 @@ func txParseCase(line string) *txCase {
 		c.regsC = append(c.regsC, p.reg())
 	}
 	c.txl = p.nat()
-	if p.next() != "T" {
+	t := p.next()
+	if t == "I" {
+		ixRegs := func() [][]txIxVeto {
+			n := p.nat()
+			regs := make([][]txIxVeto, n)
+			for i := range regs {
+				m := p.nat()
+				for j := 0; j < m; j++ {
+					st := p.next()
+					if st != "b" && st != "a" && st != "d" {
+						panic("bad index stage")
+					}
+					regs[i] = append(regs[i], txIxVeto{stage: st[0], id: p.str()})
+				}
+			}
+			return regs
+		}
+		c.ixP = ixRegs()
+		c.ixC = ixRegs()
+		t = p.next()
+	}
+	if t != "T" {
 		panic("bad case")
 	}
 	n = p.nat()
@@ -311,6 +345,13 @@ type txVetoErr struct {
 }
 
 func (e *txVetoErr) Error() string { return fmt.Sprintf("veto by %c.%d", e.store, e.reg) }
+
+type txIxVetoErr struct {
+	store byte
+	reg   int
+}
+
+func (e *txIxVetoErr) Error() string { return fmt.Sprintf("index-stage veto by %c.%d", e.store, e.reg) }
 
 type txCallerErr struct{ tag int }
 
@@ -538,6 +579,41 @@ func (c *txUntypedConstraint) ProcessPostCommit(s boltz.UntypedEntityChangeState
 	c.post(s.GetChangeType(), s.GetEntityId(), s.IsParentEvent(), s.GetInitialState(), s.GetFinalState())
 }
 
+// txIxConstraint is a custom boltz.Constraint (registered with AddConstraint, i.e. appended to the store's
+// Indexer.constraints after the built-in indexes).  It logs every call and vetoes the listed (stage, row
+// id) pairs through the IndexingContext's error holder — the way the system-entity constraint does.
+type txIxConstraint struct {
+	r      *txRun
+	store  byte
+	idx    int
+	vetoes []txIxVeto
+}
+
+func (c *txIxConstraint) Label() string { return fmt.Sprintf("verif index-stage constraint %c.%d", c.store, c.idx) }
+func (c *txIxConstraint) Initialize(*bbolt.Tx, errorz.ErrorHolder) {}
+func (c *txIxConstraint) CheckIntegrity(boltz.MutateContext, bool, func(error, bool)) error {
+	return nil
+}
+func (c *txIxConstraint) stage(stage byte, ctx *boltz.IndexingContext) {
+	id := string(ctx.RowId)
+	ic := "0"
+	if ctx.IsCreate {
+		ic = "1"
+	}
+	c.r.mu.Lock()
+	c.r.pre = append(c.r.pre, fmt.Sprintf("I.%c.%d.%c.%s.%s", c.store, c.idx, stage, txAbbr(id), ic))
+	c.r.mu.Unlock()
+	for _, v := range c.vetoes {
+		if v.stage == stage && v.id == id {
+			ctx.ErrHolder.SetError(&txIxVetoErr{store: c.store, reg: c.idx})
+			return
+		}
+	}
+}
+func (c *txIxConstraint) ProcessBeforeUpdate(ctx *boltz.IndexingContext) { c.stage('b', ctx) }
+func (c *txIxConstraint) ProcessAfterUpdate(ctx *boltz.IndexingContext)  { c.stage('a', ctx) }
+func (c *txIxConstraint) ProcessBeforeDelete(ctx *boltz.IndexingContext) { c.stage('d', ctx) }
+
 func txRegister[E boltz.Entity](r *txRun, store boltz.EntityStore[E], sc byte, regs []txReg) {
 	for i, reg := range regs {
 		label := fmt.Sprintf("L.%c.%d.", sc, i)
@@ -661,6 +737,12 @@ func txOpen(c *txCase, dir string) *txRun {
 	}
 	txRegister[*txThing](r, r.parent, 'P', c.regsP)
 	txRegister[*txExt](r, r.child, 'C', c.regsC)
+	for i, vs := range c.ixP {
+		r.parent.AddConstraint(&txIxConstraint{r: r, store: 'P', idx: i, vetoes: vs})
+	}
+	for i, vs := range c.ixC {
+		r.child.AddConstraint(&txIxConstraint{r: r, store: 'C', idx: i, vetoes: vs})
+	}
 	for i := 0; i < c.txl; i++ {
 		i := i
 		db.AddTxCompleteListener(func(boltz.MutateContext) { r.logCallback(fmt.Sprintf("X.%d", i)) })
@@ -699,6 +781,7 @@ func (r *txRun) dump() string {
 
 func txErrKind(err error) string {
 	var ve *txVetoErr
+	var xe *txIxVetoErr
 	var ce *txCallerErr
 	var pe *txPreErr
 	var nf *txNotFound
@@ -708,6 +791,8 @@ func txErrKind(err error) string {
 		return "ok"
 	case errors.As(err, &ve):
 		return fmt.Sprintf("err:veto:%c.%d", ve.store, ve.reg)
+	case errors.As(err, &xe):
+		return fmt.Sprintf("err:ixveto:%c.%d", xe.store, xe.reg)
 	case errors.As(err, &ce):
 		return fmt.Sprintf("err:caller:%d", ce.tag)
 	case errors.As(err, &pe):
